@@ -346,6 +346,17 @@ def clampPiece (exists_ : Nat → Bool) : Option Nat → Option Nat
   | none => none
   | some c => if exists_ c then some c else none
 
+/-- The lig-tag clamp, exactly (`Program::unpack_entrypoint`, ligkern/lang.rs:533-551, used by
+`validate_and_fix` for `InvalidEntrypoint`): the word at the entry point decides. `redirect` =
+the target of the instruction at index `e` if that instruction is an entry-point redirect
+(skip byte > 128), `none` otherwise or if there is no such instruction. Returns the unpacked
+entry point, or `none` (tag dropped): direct entry `≥ nl`, or redirect target `≥ nl`. -/
+def unpackEntry (nl e : Nat) (redirect : Option Nat) : Option Nat :=
+  if nl ≤ e then none
+  else match redirect with
+    | none => some e
+    | some t => if t < nl then some t else none
+
 def TagOK (nl ne : Nat) (exists_ : Nat → Bool) : Tag → Prop
   | .lig e => e < nl
   | .list n => exists_ n = true
